@@ -286,6 +286,12 @@ class Broker(banana.Banana, referenceable.Referenceable):
         self.yourReferenceByURL = {}
         self.myGifts = {}
         self.myGiftsByGiftID = {}
+        # inbound calls that were parsed but not yet run will never run
+        # (doNextCall does nothing once we are disconnected): do not keep
+        # their target objects and arguments alive
+        for (delivery, ready_deferred) in self.inboundDeliveryQueue:
+            self.activeLocalCalls.pop(delivery.reqID, None)
+        self.inboundDeliveryQueue = []
         for (cb,args,kwargs) in self.disconnectWatchers:
             eventually(cb, *args, **kwargs)
         self.disconnectWatchers = []
